@@ -278,3 +278,106 @@ def uncut_objects_have_symmetry_factor_one():
     assert new(Block, _children=[], parent=None).getSymmetryFactor() == 1.0
     assert new(Composite, _children=[], parent=None).getSymmetryFactor() == 1.0
     assert component({"A": 1.0}, 2.0).getSymmetryFactor() == 1.0
+
+
+# ----------------------------------------------------------------------------- setters at component level
+import numpy as np
+
+parameters = repo("armi.reactor.parameters")
+
+
+class Mat:
+    """stand-in material: the linear expansion is an ARBITRARY function of temperature only.  (No composition dependence:
+    true of every material of the framework; with a composition-dependent correlation updateNumberDensities rescales the
+    densities on purpose, see its docstring.)"""
+
+    def linearExpansionPercent(self, Tk=None, Tc=None):
+        return 0.002 * Tc if NATIVE else uf("P", Tc)
+
+
+class PDef:
+    """stand-in parameter definition: only its `assigned` flag is written"""
+
+
+def settable(nd, vol, T, detailed=None, pin=None, parent=None):
+    """a Component as `component`, with what the setters touch besides the densities: material, temperature, assigned flags"""
+    p = new(PMap, numberDensities=nd, volume=vol, detailedNDens=detailed, pinNDens=pin, temperatureInC=T, assigned=0,
+            paramDefs={"numberDensities": new(PDef, assigned=0)})
+    return new(Component, p=p, parent=parent, cached={}, material=new(Mat))
+
+
+def nuclide_dict(n, a, b, c):
+    return {"A": a, "B": b} if n == 2 else {"A": a, "B": b, "C": c}
+
+
+GENS = {"n": (2, 3), "a": (0.0, 0.1), "b": (0.0, 0.1), "c": (0.0, 0.1), "x": (0.0, 0.1), "y": (0.0, 0.1), "V": (0.01, 500.0), "T": (20.0, 600.0),
+        "f": (0.1, 3.0)}
+
+
+@lemma(overrides=OV, stubs=ST, gen=GENS)
+def component_setNumberDensity_reads_back_and_leaves_the_rest(n: int, a: float, b: float, c: float, x: float, y: float, V: float, T: float):
+    """Component.setNumberDensity (through updateNumberDensities): the touched nuclide reads back the requested value, every
+    other nuclide, the nuclide list and the volume are unchanged; a nuclide that was absent is created.  n = 2..3 nuclides."""
+    weights_positive()
+    assume(V > 0)
+    n = choose(n, 2, 3)
+    comp = settable(nuclide_dict(n, a, b, c), V, T)
+    old = {m: comp.getNumberDensity(m) for m in ("A", "B", "C", "D")}
+    nucs = sorted(comp.getNuclides())
+    comp.setNumberDensity("B", x)
+    assert eq(comp.getNumberDensity("B"), x), "the touched nuclide reads back the requested value"
+    for m in ("A", "C", "D"):
+        assert eq(comp.getNumberDensity(m), old[m]), "every other nuclide is unchanged"
+    assert sorted(comp.getNuclides()) == nucs and eq(comp.getVolume(), V)
+    assert eq(comp.getMass("B"), x * wt("B") / K * V), "and so does its mass"
+    assert comp.p.assigned == parameters.SINCE_ANYTHING and comp.p.paramDefs["numberDensities"].assigned == parameters.SINCE_ANYTHING
+    comp.setNumberDensity("D", y)
+    assert eq(comp.getNumberDensity("D"), y), "a nuclide that was absent reads back too"
+    assert eq(comp.getNumberDensity("B"), x) and eq(comp.getNumberDensity("A"), old["A"]) and eq(comp.getNumberDensity("C"), old["C"])
+    assert sorted(comp.getNuclides()) == sorted(nucs + ["D"])
+    comp.setNumberDensity("A", 0.0)
+    assert eq(comp.getNumberDensity("A"), 0.0) and eq(comp.getNumberDensity("B"), x), "removal = set to zero"
+
+
+@lemma(overrides=OV, stubs=ST, gen=GENS)
+def component_update_and_set_number_densities(n: int, a: float, b: float, c: float, x: float, y: float, V: float, T: float):
+    """Component.updateNumberDensities: listed nuclides read back, unlisted are unchanged;
+    Component.setNumberDensities: listed nuclides read back, everything not listed reads zero.  n = 2..3 nuclides."""
+    assume(V > 0)
+    n = choose(n, 2, 3)
+    comp = settable(nuclide_dict(n, a, b, c), V, T)
+    old = {m: comp.getNumberDensity(m) for m in ("A", "B", "C", "D")}
+    req = {"A": x, "D": y}
+    comp.updateNumberDensities(req)
+    assert eq(comp.getNumberDensity("A"), x) and eq(comp.getNumberDensity("D"), y), "listed nuclides read back"
+    assert eq(comp.getNumberDensity("B"), old["B"]) and eq(comp.getNumberDensity("C"), old["C"]), "unlisted nuclides unchanged"
+    assert eq(comp.getVolume(), V)
+    assert eq(req["A"], x) and eq(req["D"], y) and len(req) == 2, "the caller's dict is not changed"
+    comp.setNumberDensities({"B": y, "D": x})
+    assert eq(comp.getNumberDensity("B"), y) and eq(comp.getNumberDensity("D"), x), "listed nuclides read back"
+    assert eq(comp.getNumberDensity("A"), 0.0) and eq(comp.getNumberDensity("C"), 0.0), "everything not listed is cleared"
+    assert sorted(comp.getNuclides()) == ["B", "D"]
+    assert comp.p.assigned == parameters.SINCE_ANYTHING
+
+
+@lemma(overrides=OV, stubs=ST, gen=GENS)
+def component_changeNDensByFactor_scales_every_nuclide(n: int, a: float, b: float, c: float, f: float, V: float, T: float, d1: float, d2: float):
+    """Component.changeNDensByFactor / _changeOtherDensParamsByFactor: every nuclide reads back factor x old (nothing else
+    appears), the detailed and pin density vectors follow, mass scales by the factor.  n = 2..3 nuclides."""
+    weights_positive()
+    assume(V > 0)
+    n = choose(n, 2, 3)
+    comp = settable(nuclide_dict(n, a, b, c), V, T, detailed=np.array([d1, d2]), pin=np.array([d2, d1]))
+    old = {m: comp.getNumberDensity(m) for m in ("A", "B", "C", "D")}
+    nucs = sorted(comp.getNuclides())
+    m0 = comp.getMass()
+    comp.changeNDensByFactor(f)
+    for m in ("A", "B", "C", "D"):
+        assert eq(comp.getNumberDensity(m), f * old[m]), "each nuclide reads back factor x its old density"
+    assert sorted(comp.getNuclides()) == nucs and eq(comp.getVolume(), V)
+    assert eq(comp.getMass(), f * m0)
+    assert eq(comp.p.detailedNDens[0], f * d1) and eq(comp.p.detailedNDens[1], f * d2)
+    assert eq(comp.p.pinNDens[0], f * d2) and eq(comp.p.pinNDens[1], f * d1)
+    plain = settable(nuclide_dict(n, a, b, c), V, T)
+    plain.changeNDensByFactor(f)
+    assert eq(plain.getNumberDensity("A"), f * a) and plain.p.detailedNDens is None and plain.p.pinNDens is None
